@@ -985,9 +985,12 @@ def run_p2(case):
         raise
     if not (np.array_equal(np.asarray(a_in, dtype="float64"), aa) and np.array_equal(b_in, bb)):
         r.fail("Poly2d.fit:input-modified", what + ": the caller's control point arrays were changed in place")
-    got = p(aa)
+    ev_in = aa.copy()
+    got = p(ev_in)
     g0 = got.copy()
-    got2 = p(aa[:, 0], aa[:, 1])
+    got2 = p(ev_in[:, 0], ev_in[:, 1])
+    if not np.array_equal(ev_in, aa):
+        return r.fail("Poly2d.call:input-modified", what + ": evaluating the polynomial changed the coordinate array passed in")
     if got.shape != aa.shape or got2.shape != (2, aa.shape[0]):
         return r.fail("Poly2d.call:shape", what + f": shapes {got.shape}, {got2.shape}")
     for k in range(aa.shape[0]):
@@ -1502,28 +1505,39 @@ def slices(tier):
 def main(ctx):
     ctx.rule = (
         "complete Cartesian products of per-helper alphabets; a case is non-trivial when it exercises the contract "
-        "on its stated domain (finite input, precondition x0<=x1 met, point at least 1e-9 from a bin edge on R); "
-        "distinct by (slice, case) hash"
+        "on its stated domain (finite input, precondition x0<=x1 met, value representable in the requested encoding, "
+        "point further than a few ulps + 1e-9 bin from a bin edge on R); distinct by (slice, case) hash"
     )
     ctx.bounds = {
         "near_int": {"k": list(KS_T if ctx.tier == "thorough" else KS_Q), "fractions": len(FRACS), "ulp": [-1, 0, 1], "tol": list(TOLS)},
-        "align": "x in [-40,5000] + {2^k+d: 13<=k<=32, |d|<=3}; align 1..20",
+        "align": "x in [-40,5000] + {2^k+d: 13<=k<=32, |d|<=3}; align 1..20; numpy int64/int32/float encodings on a sub-range",
         "snap_grid_D": {"res": list(SG_D_RES), "off_pix": [repr(o) for o in SG_D_OFF], "tol": list(SG_D_TOL), "k0": list(SG_D_K), "span": list(SG_D_SPAN_K)},
-        "snap_grid_R": {"left": list(SG_R_LEFT), "span": list(SG_R_SPAN), "res": list(SG_R_RES), "off_pix": [repr(o) for o in SG_R_OFF], "tol": list(SG_R_TOL)},
-        "snap_scale": {"n": list(SS_N), "tol": list(SS_TOL)},
+        "snap_grid_R": {"base": list(SG_R_BASE), "left": list(SG_R_LEFT), "span": list(SG_R_SPAN), "res": list(SG_R_RES),
+                        "off_pix": [repr(o) for o in SG_R_OFF], "tol": list(SG_R_TOL)},
+        "snap_scale": {"n": list(SS_N), "tol": list(SS_TOL), "forms": list(SS_FORMS)},
+        "snap_affine_window": {"factors": list(SW_F), "scales": list(SW_SC), "translations": list(SW_T), "tolerances": [list(t) for t in SA_TOLS]},
         "rws": {"entries": list(RWS_E), "rot": list(RWS_ROT), "shear": list(RWS_W), "sx": list(RWS_SX), "sy": list(RWS_SY)},
-        "poly2d": {"grids": [list(g) for g in P2_GRIDS4 + P2_GRIDS9], "frames": len(P2_FRAMES), "maps": len(P2_MAPS)},
-        "bin1d": {"idx": "-5..5", "sz_D": list(BD_SZ), "sz_R": list(BR_SZ)},
+        "poly2d": {"grids": [list(g) for g in P2_GRIDS4 + P2_GRIDS9], "frames": len(P2_FRAMES), "maps": len(P2_MAPS),
+                   "input_transforms": [n for n, _ in P2_XFORMS], "array_variants": list(P2_VARIANTS),
+                   "triples": "all 76 (thorough) / every 4th (quick)"},
+        "axis": {"n": list(AX_N) + [2000], "res": list(AX_RES), "x0": list(AX_X0), "fallback": list(AX_MODES), "label_encodings": list(AX_ENCS)},
+        "bin1d": {"idx": "-5..5", "sz_D": list(BD_SZ), "origin_D": list(BD_ORG), "sz_R": list(BR_SZ), "origin_R": list(BR_ORG)},
+        "encodings": {"values": list(ENC_V), "x": list(ENC_X), "tol": list(ENC_T)},
     }
     ctx.assumptions = [
         "inputs are finite binary64 values; every arithmetic contract is judged in exact rationals of those values",
-        "at exact equality with a tolerance boundary either decision is accepted (snap_grid minimality/cover, snap_scale)",
+        "at exact equality with a tolerance boundary either decision is accepted (snap_grid minimality/cover, snap_scale, is_affine_st within 1e-9 of tol*pixel)",
+        "is_affine_st: tolerance relative to the pixel size, |w| <= tol*max(|sx|,|sy|) (repaired behaviour); snap_affine's rotation tolerance is absolute as documented",
         "align_up_pow2/align_down_pow2 are checked for 1 <= x <= 2^32+3 (stated range); align_up_pow2(x<=0) == 1; align_down_pow2 not checked for x <= 0",
         "split_float ties (fraction exactly +-0.5) may go to either neighbour",
-        "Bin1D: a point exactly on a shared edge may be assigned to either adjacent bin; on the realistic alphabet points closer than 1e-9*(|x|+|origin|+sz) to an edge are not judged",
-        "polynomial fits are judged on full product grids (general position for the fitted basis) and exactly representable targets",
-        "decompose_rws is judged with tolerance 1e-9 relative (DESIGN 3) instead of 1e-12",
-        "affine_from_pts is judged at the fit points and their centroid (not extrapolated)",
+        "Bin1D: a point exactly on (or one ulp from) a shared edge may be assigned to either adjacent bin; on the realistic alphabet points closer than 4 ulps of the coordinate + 1e-9 bin to an edge are not judged",
+        "R-alphabet slack is ulps of the coordinate + 1e-9 pixel (snap_grid 8 ulp, axis labels 8/16 ulp, Bin1D 4 ulp); Poly2d: 1e-12 of the value + 1e-9 grid step + input rounding (64 ulp of the frame origin) times the gradient of the target",
+        "polynomial fits are judged on full product grids (general position for the fitted basis, optionally with repeated control points) and exactly representable targets",
+        "Poly2d.grid2d on a chain that is not axis-aligned must raise; answering correctly would also be accepted, answering wrongly is a violation",
+        "decompose_rws is judged with tolerance 1e-9 relative to the matrix (DESIGN 3) instead of 1e-12",
+        "affine_from_pts is judged at the fit points and their centroid (not extrapolated), 1e-11 of the value + 1e-9 pixel",
+        "encodings: int / numpy scalar / float32 / Fraction arguments are compared by value with the float answer, only where the encoding holds the value exactly; lists are not accepted by affine_from_axis (no .size) and are not enumerated",
+        "float32 control points / snap_grid arguments are not enumerated: arithmetic then happens in float32 and the result is legitimately only float32-accurate",
     ]
     sl = slices(ctx.tier)
     if ctx.only:
